@@ -29,6 +29,15 @@ ValueIff == last.out # "none" /\ SliceArgsOK(last.src, last.l, last.r)
 CumShape == Cum(m, 0) = 0 /\ \A x \in 0..(SL(m) - 1) : Cum(m, x + 1) - Cum(m, x) = Known(RateAt(m, x))
 \* whole-map slice is the identity
 WholeIsIdentity == SliceMap(m, 0, SL(m), FALSE) = m /\ SliceMap(m, 0, SL(m), TRUE) = m
+\* slicing a slice is slicing the source (as functions of position; the interval layout may differ), trimmed or not
+SameFn(a, b) == SL(a) = SL(b) /\ \A x \in 0..(SL(a) - 1) : RateAt(a, x) = RateAt(b, x)
+Composition ==
+  \A l \in 0..SL(m), r \in 0..SL(m), l2 \in 0..SL(m), r2 \in 0..SL(m) :
+    (l <= l2 /\ l2 < r2 /\ r2 <= r /\ SliceOutcome(m, l, r, FALSE) = "ok" /\ SliceOutcome(m, l2, r2, FALSE) = "ok") =>
+      /\ SliceOutcome(SliceMap(m, l, r, FALSE), l2, r2, FALSE) = "ok"
+      /\ SameFn(SliceMap(SliceMap(m, l, r, FALSE), l2, r2, FALSE), SliceMap(m, l2, r2, FALSE))
+      /\ SliceOutcome(SliceMap(m, l, r, TRUE), l2 - l, r2 - l, TRUE) = "ok"
+      /\ SameFn(SliceMap(SliceMap(m, l, r, TRUE), l2 - l, r2 - l, TRUE), SliceMap(m, l2, r2, TRUE))
 \* no slice ever adds mass
 NoNewMass == [][Cum(m', SL(m')) <= Cum(m, SL(m))]_vars
 =============================================================================
